@@ -140,6 +140,7 @@ pub fn scenarios(thorough: bool) -> Vec<Scenario> {
         sc.key_opts.heads = true;
     }
     v.extend(cross_scenarios(thorough));
+    v.extend(combo_scenarios(thorough));
     v
 }
 
